@@ -131,6 +131,16 @@ def build_tuc_nofast():
     return os.path.join(BUILD, "tuc-nofast", "debug", "tuc")
 
 
+def build_tuc_noregex():
+    """the same sources built with --no-default-features: the `#[cfg(not(feature = "regex"))]` twins of the code are compiled instead"""
+    env = dict(ENV)
+    env["CARGO_TARGET_DIR"] = os.path.join(BUILD, "tuc-noregex")
+    rc, out = run_cmd(["cargo", "build", "--offline", "--no-default-features"], cwd=REPO, env=env)
+    if rc != 0:
+        raise BuildError("tuc build (--no-default-features) failed\n" + out[-3000:])
+    return os.path.join(BUILD, "tuc-noregex", "debug", "tuc")
+
+
 class BuildError(Exception):
     pass
 
